@@ -159,9 +159,10 @@ class error_html(object):
         @param ele_list: list of formatted elements
         @rtype: string
         """
-        return seg_id + self.ele_term + seg_str(
-            ele_list, self.seg_term, self.ele_term,
-            self.subele_term, self.eol)
+        # the segment ID and the delimiters come from the input like the values do
+        return escape_html_chars(seg_id) + escape_html_chars(self.ele_term) + seg_str(
+            ele_list, escape_html_chars(self.seg_term), escape_html_chars(self.ele_term),
+            escape_html_chars(self.subele_term), self.eol)
 
     def _wrap_ele_error(self, str1):
         """
